@@ -80,6 +80,10 @@ pub struct Flags {
     pub c06: bool,
     pub c07: bool,
     pub c16: bool,
+    /// the run's objective function is not a pure function of the solution (see `Instr::noisy`)
+    pub noisy: bool,
+    /// the termination condition is `iterations < n & !OptimumReached` where the optimum value cannot be reached
+    pub budget_or_optimum: bool,
 }
 
 /// Wraps the main loop's condition: records stack height and top population size at every test.
@@ -560,13 +564,20 @@ where
             EvKind::Gated(..) => (self.problem)().with_instr(Instr::gated(gate.clone())),
             _ => (self.problem)(),
         };
-        if NOISY_OBJECTIVE.with(|v| v.get()) {
+        if flags.noisy || NOISY_OBJECTIVE.with(|v| v.get()) {
             problem.instr().noisy.store(true, std::sync::atomic::Ordering::SeqCst);
         }
         let looplog = Arc::new(Mutex::new(vec![]));
         let mut out = RunOutcome::default();
         let tmpl = self.name.to_string();
-        let config = match catch(|| self.config(looplog.clone())) {
+        if flags.budget_or_optimum {
+            COND_VARIANT.with(|v| v.set(1));
+        }
+        let built = catch(|| self.config(looplog.clone()));
+        if flags.budget_or_optimum {
+            COND_VARIANT.with(|v| v.set(0));
+        }
+        let config = match built {
             Ok(Ok(c)) => {
                 // which object runs: the configuration itself, a clone, one rebuilt through into_builder(), or the
                 // configuration after it has already been used for another run
